@@ -120,13 +120,6 @@ def window_trigger(sizes: list[int], iov: int) -> int | None:
     return None
 
 
-def _repair(sizes: list[int], iov: int) -> list[int]:
-    sizes = list(sizes)
-    while (i := window_trigger(sizes, iov)) is not None:
-        sizes[i] = 1
-    return sizes
-
-
 # --------------------------------------------------------------------------------------------------- generators
 _SIZE_CLASSES = ("small", "empty", "small", "empty", "medium", "large")
 
@@ -159,21 +152,16 @@ def _materialise(sizes: list[int], offset: int) -> list[bytes]:
 class _Workload:
     """what to send on one connection: protocol, packets, expected chunk lists"""
 
-    def __init__(self, world: World, iov: int, family: str, zero_chunks_known: bool):
+    def __init__(self, world: World):
         self.kind = world.pick("packet.kind", ("chunks", "chunks", "chunks", "bz2"))
         npackets = 1 + world.choose("npackets", 3)
         self.packets: list[Any] = []
         self.expected: list[list[bytes]] = []
         self.sizes: list[list[int]] = []
-        avoid = bool(getattr(world, "avoid_known", True))
         if self.kind == "chunks":
             self.protocol = StreamProtocol(ChunkListSerializer())
             for p in range(npackets):
                 sizes = _gen_sizes(world)
-                if avoid and iov > 0:
-                    sizes = _repair(sizes, iov)
-                    if zero_chunks_known and not sizes:
-                        sizes = [1]
                 chunks = _materialise(sizes, 7 * p)
                 self.packets.append(chunks)
                 self.expected.append(list(chunks))
@@ -311,7 +299,20 @@ class _Link:
         self.world = world
         net = self.net = SimNet(world)
         net.livelock_limit = 300
-        cap_kind = world.pick("link.capacity", ("big", "big", "small", "medium"))
+        # a third of the runs are fault-free (baseline): big link, no delay, no injected errors, peer reads at once
+        self.baseline = baseline = world.choose("swarm.faults", 3) == 0
+        if baseline:
+            self.capacity = 1 << 21
+            self.lib, psock = net.socketpair(capacity_ab=self.capacity)
+            self.peer = Peer(world, psock)
+            self.slow = None
+            self.peer_mode = "reads"
+            self.fail_from = None
+            self.tap = _SendTap(world, None)
+            self.lib.fault_plan = self.tap
+            self.sel_opts = {}
+            return
+        cap_kind = world.pick("link.capacity", ("big", "small", "medium"))
         if cap_kind == "big":
             capacity = 1 << 21
         elif cap_kind == "small":
@@ -342,34 +343,21 @@ class _Link:
             world.fault("peer_stops_reading")
         elif self.peer_mode == "never":
             self.peer.pause_reading()
-        net.short_write_den = draw_rate(world, "sw.short", (0, 0, 8, 2))
-        plan = CallFaults(world, eagain_den=draw_rate(world, "sw.eagain"), eintr_den=draw_rate(world, "sw.eintr"))
+        net.short_write_den = draw_rate(world, "sw.short", (0, 8, 2))
+        plan = CallFaults(world, eagain_den=draw_rate(world, "sw.eagain", (0, 16, 4)), eintr_den=draw_rate(world, "sw.eintr", (0, 16, 4)))
         self.fail_from: tuple[int, int] | None = None
-        if world.chance("sw.fail_from", 1, 6):
+        if world.chance("sw.fail_from", 1, 5):
             n = world.choose("fail.n", 24)
             code = world.pick("fail.errno", (errno.ECONNRESET, errno.EPIPE))
             plan.fail_from["send"] = (n, code)
             self.fail_from = (n, code)
-        self.plan = plan
-        self.plan_armed = [True]  # the "error from call n on" fault only strikes while armed
-        if self.fail_from is not None:
-            armed = self.plan_armed
-            code_ = self.fail_from[1]
-
-            def gated(sock: SimSocket, op: str, plan=plan, armed=armed):
-                if not armed[0] and op in plan.fail_from:
-                    saved = plan.fail_from.pop(op)
-                    try:
-                        return plan(sock, op)
-                    finally:
-                        plan.fail_from[op] = saved
-                return plan(sock, op)
-
-            self.tap = _SendTap(world, gated)
-        else:
-            self.tap = _SendTap(world, plan)
+        self.tap = _SendTap(world, plan)
         self.lib.fault_plan = self.tap
         self.sel_opts = {"spurious_den": draw_rate(world, "sw.spurious", (0, 0, 0, 6))}
+
+    def check_installed(self) -> None:
+        if self.lib.fault_plan is not self.tap:
+            raise HarnessError("C04: the send tap / fault plan is not installed on the library's socket")
 
     def zero_sends_since(self, trace_pos: int) -> int:
         label = self.lib.label
@@ -460,7 +448,7 @@ def _h_sync(world: World, family: str) -> None:
             raise HarnessError("constants.SC_IOV_MAX is not positive on this platform: the sendmsg path is unreachable")
     else:
         iov_choice = iov = 0
-    wl = _Workload(world, iov, family, zero_chunks_known=False)
+    wl = _Workload(world)
     via = world.pick("via", ("endpoint", "client"))
     retry_interval = world.pick("retry_interval", (math.inf, 1.0, 1.0 / 16))
     link = _Link(world, wl.total(), allow_never=True)
@@ -473,6 +461,7 @@ def _h_sync(world: World, family: str) -> None:
     current = 0
     cur = [0]
     sender: Any = None
+    link.check_installed()
     link.tap.family = family
     link.tap.spin_key = lambda: _spin_key(family, wl, cur[0], iov)
     link.tap.describe = lambda: _describe(wl, extra)
@@ -548,14 +537,14 @@ def _h_sync(world: World, family: str) -> None:
 def _h_aio(world: World) -> None:
     family = "aio-adapter"
     iov = int(_aio_sel.SC_IOV_MAX)
-    avoid = bool(getattr(world, "avoid_known", True))
-    wl = _Workload(world, iov, family, zero_chunks_known=True)
+    wl = _Workload(world)
     via = world.pick("via", ("endpoint", "client"))
     link = _Link(world, wl.total(), allow_never=False)
     extra = {"via": via, "capacity": link.capacity, "peer": link.peer_mode, "fail_from": link.fail_from}
     world.notes.update(family=family, kind=wl.kind, sizes=wl.sizes, **{k: str(v) for k, v in extra.items()})
     backend = SimAsyncIOBackend(link.net)
     state = {"current": 0, "done": 0, "failed": False, "early_return": False}
+    link.check_installed()
     link.tap.family = family
     link.tap.spin_key = lambda: _spin_key(family, wl, state["current"], iov)
     link.tap.describe = lambda: _describe(wl, extra)
@@ -572,7 +561,8 @@ def _h_aio(world: World) -> None:
 
     async def main() -> None:
         loop = asyncio.get_running_loop()
-        swarm_selector(world, loop.sim_selector)  # type: ignore[attr-defined]
+        if not link.baseline:
+            swarm_selector(world, loop.sim_selector)  # type: ignore[attr-defined]
         if via == "endpoint":
             transport = await backend.wrap_stream_socket(link.lib)
             sender: Any = AsyncStreamEndpoint(transport, wl.protocol, max_recv_size=4096)
@@ -584,7 +574,6 @@ def _h_aio(world: World) -> None:
             for i, packet in enumerate(wl.packets):
                 state["current"] = i
                 pos = len(world.trace)
-                link.plan_armed[0] = True
                 link.tap.begin(link.lib, None, None)
                 link.tap.start_written = 0
                 link.tap.byte_budget = sum(sum(ss) for ss in wl.sizes[: i + 1])  # cumulative: a flush may outlive its send
@@ -618,12 +607,7 @@ def _h_aio(world: World) -> None:
                     # a connection error striking now loses bytes of a send that reported success.
                     world.probe("returned_before_flush")
                     state["early_return"] = True
-                    if avoid:
-                        link.plan_armed[0] = False
-                        await flushed(expected_written)
-                        check_fatal()
             # termination, part 2: once everything is flushed nothing may keep the loop busy
-            link.plan_armed[0] = not avoid
             if not state["failed"]:
                 await flushed(expected_written)
                 check_fatal()
@@ -650,6 +634,8 @@ def _h_aio(world: World) -> None:
             closer.result()
         finally:
             await aclose_forcefully(sender)
+            if not link.lib.sim_closed:
+                link.lib.close()  # deterministic release: otherwise a destructor closes (and logs) at an arbitrary later point
 
     try:
         with sim_sockets(link.net):
